@@ -87,7 +87,8 @@ class EngineBase(PathMgr):
         return s
 
     def get_seq(self, v):
-        return smt.simp(z3.Select(self.st.seq, Val.r(v)))
+        seq = self.strip_fresh(self.st.seq) if self.is_old(v) else self.st.seq
+        return smt.simp(z3.Select(seq, Val.r(v)))
 
     def set_seq(self, v, s) -> None:
         self.st.seq = z3.Store(self.st.seq, Val.r(v), s)
@@ -117,8 +118,9 @@ class EngineBase(PathMgr):
     def dict_get(self, d, k):
         """value or ABSENT"""
         r = Val.r(d)
-        kk = smt.simp(smt.key_of(k))
-        v = smt.simp(z3.Select(z3.Select(self.st.dct, r), kk))
+        kk = self.key_term(k)
+        dct = self.strip_fresh(self.st.dct) if self.is_old(d) else self.st.dct
+        v = smt.simp(z3.Select(z3.Select(dct, r), kk))
         self.dict_probes.append((smt.simp(r), kk))
         self.link_dlen(smt.simp(r), kk)
         sid = smt.static_id(Val.ref(r))
@@ -132,6 +134,9 @@ class EngineBase(PathMgr):
         self._add_axiom(z3.Select(self.st.dlen, r) >= 0)
         self.bound_ref(v)
         self.json_closed(d, v)
+        et = self.container_elem_type.get(smt.simp(d).get_id())
+        if et is not None and self.is_initial_read(v):
+            self._add_axiom(z3.Or(v == smt.ABSENT, self.type_formula(v, et)))
         return v
 
     def link_dlen(self, r, kk) -> None:
@@ -155,9 +160,14 @@ class EngineBase(PathMgr):
             z3.If(z3.Select(z3.Select(h0, r), g[0]) != smt.ABSENT, 1, 0)
         self._add_axiom(z3.Select(l0, r) >= cnt)
 
+    def key_term(self, k):
+        if self.kind_of(k) in ('str', 'none', 'ref', 'int'):
+            return smt.simp(k)
+        return smt.simp(smt.key_of(k))
+
     def dict_set(self, d, k, v) -> None:
         r = Val.r(d)
-        kk = smt.simp(smt.key_of(k))
+        kk = self.key_term(k)
         arr = z3.Select(self.st.dct, r)
         old = z3.Select(arr, kk)
         n = z3.Select(self.st.dlen, r)
@@ -167,7 +177,7 @@ class EngineBase(PathMgr):
 
     def dict_del(self, d, k) -> None:
         r = Val.r(d)
-        kk = smt.simp(smt.key_of(k))
+        kk = self.key_term(k)
         arr = z3.Select(self.st.dct, r)
         old = z3.Select(arr, kk)
         n = z3.Select(self.st.dlen, r)
@@ -178,6 +188,9 @@ class EngineBase(PathMgr):
     # ------------------------------------------------------------------ kinds
     def kind_of(self, v, force: bool = False) -> Optional[str]:
         t = smt.tag_of(v)
+        if t is not None:
+            return t
+        t = self.kind_hint.get(smt.simp(v).get_id())
         if t is not None:
             return t
         c = self.class_of(v)
